@@ -1,1 +1,10 @@
+pub mod c09;
+pub mod c10;
 pub mod hist_family;
+
+use crate::engine::{Accum, Ctx};
+
+/// socket-level phase of C09 (filled in by the L3 layer)
+pub fn c09_l3_hook(_ctx: &Ctx, _acc: &Accum) -> Option<i32> {
+    None
+}
